@@ -104,6 +104,22 @@ theorem imms_fromCtx (env : Env) {Γ : Ctx} (cs : List String) : ∀ {args : Lis
     simp only [compileImms, List.map_cons, varsUsedList, noBlockList, mem_uni, Bool.and_eq_true] at *
     exact ⟨fun y hy => hy.elim (h1 y) (h3 y), h2, h4⟩
 
+theorem fields_fromCtx (env : Env) {Γ : Ctx} (cs : List String) : ∀ {args : List Imm} {tys : List Ty} (fields : List (String × Ty)),
+    argsOK Γ args tys = true →
+    (∀ y, y ∈ Goml.Dce.varsUsedFields (structFieldsOf fields (compileImms env args)) → FromCtx Γ cs y) ∧
+      Goml.Dce.noBlockFields (structFieldsOf fields (compileImms env args)) = true
+  | [], tys, fields, _ => by simp [compileImms, structFieldsOf, Goml.Dce.varsUsedFields, Goml.Dce.noBlockFields]
+  | a :: as, [], fields, h => by simp [argsOK] at h
+  | a :: as, t :: ts, [], _ => by simp [compileImms, structFieldsOf, Goml.Dce.varsUsedFields, Goml.Dce.noBlockFields]
+  | a :: as, t :: ts, f :: fs, h => by
+    simp only [argsOK, Bool.and_eq_true] at h
+    obtain ⟨⟨ha, _⟩, has⟩ := h
+    obtain ⟨h1, h2⟩ := imm_fromCtx env ha cs
+    obtain ⟨h3, h4⟩ := fields_fromCtx env cs fs has
+    simp only [compileImms, structFieldsOf, List.map_cons, List.zip_cons_cons, Goml.Dce.varsUsedFields,
+      Goml.Dce.noBlockFields, mem_uni, Bool.and_eq_true] at *
+    exact ⟨fun y hy => hy.elim (h1 y) (h3 y), h2, h4⟩
+
 theorem cexpr_fromCtx {env : Env} {file : AFile} {G : List String} {Γ : Ctx} {c : CExpr} (hctl : isCtl c = false)
     (h : fragC env file G Γ c = true) :
     (∀ y, y ∈ varsUsed (compileCExpr env c) → FromCtx Γ (calleesC c) y) ∧ noBlockExpr (compileCExpr env c) = true := by
@@ -145,10 +161,28 @@ theorem cexpr_fromCtx {env : Env} {file : AFile} {G : List String} {Γ : Ctx} {c
   | ite c t e ty => simp [isCtl] at hctl
   | «while» c b ty => simp [isCtl] at hctl
   | matchE s arms d ty => simp [isCtl] at hctl
-  | constr c args ty => simp [fragC] at h
+  | constr c args ty =>
+    cases c with
+    | enum tn vn' vi => simp [fragC] at h
+    | struct sn =>
+      simp only [fragC, Bool.and_eq_true] at h
+      obtain ⟨_, hcase⟩ := h
+      cases hd : env.getStruct sn with
+      | none => rw [hd] at hcase; simp at hcase
+      | some d =>
+        rw [hd] at hcase; simp only at hcase
+        obtain ⟨h1, h2⟩ := fields_fromCtx env (calleesC (.constr (.struct sn) args ty)) d.fields hcase
+        simp only [compileCExpr, hd, Option.map_some, Option.getD_some, varsUsed, noBlockExpr]
+        exact ⟨h1, h2⟩
   | tuple items ty => simp [fragC] at h
   | array items ty => simp [fragC] at h
-  | cget e c idx ty => simp [fragC] at h
+  | cget e c idx ty =>
+    cases c with
+    | enum tn vn' vi => simp [fragC] at h
+    | struct sn =>
+      simp only [fragC, Bool.and_eq_true] at h
+      obtain ⟨h1, h2⟩ := imm_fromCtx env h.1.1.1 (calleesC (.cget e (.struct sn) idx ty))
+      simp only [compileCExpr, varsUsed, noBlockExpr]; exact ⟨h1, h2⟩
   | toDyn tr forTy e ty => simp [fragC] at h
   | dynCall tr m recv args ty => simp [fragC] at h
   | go e ty => simp [fragC] at h
@@ -464,10 +498,12 @@ theorem scopeC {env : Env} {file : AFile} {G : List String} {D : Names} :
   | .call f args ty, m, st, Γ, sc, hfrag, hctx, hdecl, htgt => by
     rw [compileTail_simple env m st (by rfl)]; exact scopeC_simple m _ Γ sc rfl hfrag hctx htgt
   | .matchE s arms d ty, m, st, Γ, sc, hfrag, _, _, _ => by simp [fragC] at hfrag
-  | .constr c args ty, m, st, Γ, sc, hfrag, _, _, _ => by simp [fragC] at hfrag
+  | .constr c args ty, m, st, Γ, sc, hfrag, hctx, hdecl, htgt => by
+    rw [compileTail_simple env m st (by rfl)]; exact scopeC_simple m _ Γ sc rfl hfrag hctx htgt
   | .tuple items ty, m, st, Γ, sc, hfrag, _, _, _ => by simp [fragC] at hfrag
   | .array items ty, m, st, Γ, sc, hfrag, _, _, _ => by simp [fragC] at hfrag
-  | .cget e c idx ty, m, st, Γ, sc, hfrag, _, _, _ => by simp [fragC] at hfrag
+  | .cget e c idx ty, m, st, Γ, sc, hfrag, hctx, hdecl, htgt => by
+    rw [compileTail_simple env m st (by rfl)]; exact scopeC_simple m _ Γ sc rfl hfrag hctx htgt
   | .toDyn tr forTy e ty, m, st, Γ, sc, hfrag, _, _, _ => by simp [fragC] at hfrag
   | .dynCall tr mm recv args ty, m, st, Γ, sc, hfrag, _, _, _ => by simp [fragC] at hfrag
   | .go e ty, m, st, Γ, sc, hfrag, _, _, _ => by simp [fragC] at hfrag
